@@ -94,13 +94,8 @@ def make_case(rng, s, idx):
     nconn = max([x["k"] for x in steps] + [1])
     scens = []
     hv = (not tamper) and rng.random() < 0.4
-    # a quarter of the histories: one side is configured for DTLS 1.2 AND 1.3 (the peer for 1.2 only, so 1.2 is negotiated and
-    # sessions are created, looked up, resumed and evicted as on a 1.2-only endpoint)
-    layout = rng.choice([("12", "12")] * 3 + [("12", "dual")]) if not tamper else ("12", "12")
     for _ in range(nconn):
         sc = dict(rng.choice(FAM[fam]), ver="12", helloVerify=hv)
-        if layout != ("12", "12"):
-            sc.update(cver=layout[0], sver=layout[1])
         scens.append(sc)
     name = "%s/%05d/%s" % (s["content"], idx, "+".join("%s%d%s" % (x["act"][:2], x["k"], "".join(a[:3] for a in x["arg"])) for x in steps))
     return {"name": name[:200], "content": s["content"], "scens": scens, "steps": steps}
@@ -193,6 +188,50 @@ def run_rogue(chk, binary, cases):
         shutil.rmtree(wd, ignore_errors=True)
 
 
+def evict_cases(chk):
+    out = []
+    fams = [("cert", ""), ("psk", "TLS_PSK_WITH_AES_128_GCM_SHA256"), ("rsa", "TLS_ECDHE_RSA_WITH_AES_128_GCM_SHA256")]
+    for who in ("server-alpn", "client-ems"):
+        for cver, sver in (("12", "12"), ("12", "dual")):
+            for hv in (True, False):
+                for auth, suite in (fams[:1] if chk.quick else fams):
+                    out.append({"name": "%s/%s-%s/hv%d/%s" % (who, cver, sver, hv, auth), "who": who, "cver": cver, "sver": sver, "helloVerify": hv,
+                                "auth": auth, "suite": suite})
+    return out
+
+
+def run_evict(binary, cases):
+    wd = vlib.scratch("c14e")
+    try:
+        inp, out = os.path.join(wd, "in.json"), os.path.join(wd, "out.ndjson")
+        json.dump(cases, open(inp, "w"))
+        rc, txt = vlib.run_test(binary, "TestVerifC14Evict", {"VERIF_IN": inp, "VERIF_OUT": out}, timeout=900)
+        if rc != 0 or not os.path.exists(out):
+            raise vlib.Inconclusive("eviction harness failed: " + txt[-2000:])
+        return vlib.read_ndjson(out)
+    finally:
+        shutil.rmtree(wd, ignore_errors=True)
+
+
+def evict_part(chk, binary):
+    cases = evict_cases(chk)
+    rows = run_evict(binary, cases)
+    if len(rows) != len(cases):
+        raise vlib.Inconclusive("eviction harness ran %d of %d cases" % (len(rows), len(cases)))
+    judged = 0
+    for c, r in zip(cases, rows):
+        if r.get("lab"):
+            chk.note("eviction history %s not applicable: %s" % (c["name"], r["lab"]))
+            continue
+        judged += 1
+        chk.evaluated(key="evict:" + c["name"])
+        for v in (r.get("violations") or [])[:1]:
+            chk.violation({"kind": "alerted-session-kept", "what": v, "evict_case": c})
+    if judged < len(cases) * 3 // 4 and not chk.violations:
+        raise vlib.Inconclusive("only %d of %d eviction histories could be judged" % (judged, len(cases)))
+    chk.parts["evict_histories"] = {"cases": len(cases), "judged": judged}
+
+
 def run(chk):
     t = chk.tier
     for v in ("seq", "ilv", "rogue", "loss"):
@@ -252,6 +291,8 @@ def run(chk):
         raise vlib.Inconclusive("rogue-peer control (peer holding the client's secret is accepted) succeeded only %d times" % controls)
     chk.parts["rogue"] = {"cases": len(rcases), "controls_accepted": controls, "diverged": rdiv}
     chk.sample({"rogue": rcases[len(rcases) // 2]["name"]})
+    # ---- fatal-alert clause with configurations that change from connection to connection (and dual-version servers)
+    evict_part(chk, binary)
     # ---- histories
     rows, total = run_cases(cases, binary)
     chk.traces(total.get("cases", 0))
@@ -308,6 +349,12 @@ def run(chk):
 def replay(chk, path):
     facts = json.load(open(path))
     binary = vlib.build("root")
+    if "evict_case" in facts:
+        chk.evaluated(key="replay")
+        for r in run_evict(binary, [facts["evict_case"]]):
+            if r.get("violations"):
+                chk.violation(dict(facts, replayed=True), replay=path)
+        return
     if "rogue_case" in facts:
         for r in run_rogue(chk, binary, [facts["rogue_case"]]):
             for v in r.get("violations") or []:
